@@ -46,7 +46,16 @@ def float_to_mpfr(x: RealFloat | Float):
 
     s_fmt = '-' if x.s else '+'
     fmt = f'{s_fmt}{hex(x.c)}p{x.exp}'
-    return gmp.mpfr(fmt, precision=x.p, base=16)
+    # the conversion must not depend on the caller's MPFR settings
+    # (a narrower exponent range would overflow or flush the value)
+    with gmp.context(
+        emin=MPFR_EMIN,
+        emax=MPFR_EMAX,
+        trap_underflow=False,
+        trap_overflow=False,
+        trap_inexact=False,
+    ):
+        return gmp.mpfr(fmt, precision=x.p, base=16)
 
 def mpfr_to_float(x):
     """
